@@ -422,6 +422,57 @@ fn oracles(c: &Case, allow_run: &RunOut, full_bindings: &str, st: &mut Stats, fa
             return;
         }
     }
+    // ---- needs: everything a matching declaration transitively needs (generator's own dependency relation) is generated, also
+    //      when the matching declaration itself is blocklisted (the user supplies that one; what it refers to is still bindgen's)
+    if c.recursive && !nothing {
+        st.bump("needs-checked");
+        let decl_blocked = |i: usize| -> bool {
+            let dd = &p.decls[i];
+            let path = p.path(i);
+            let by_name = match dd.kind {
+                DKind::Function => am::set_matches(&c.block.functions, &path),
+                DKind::Var => am::set_matches(&c.block.vars, &path),
+                DKind::UnnamedEnum => !c.block.is_empty(),
+                _ => am::set_matches(&c.block.types, &path),
+            } || am::set_matches(&c.block.items, &path) || (in_inc(i) && !c.block.files.is_empty());
+            let by_ns = dd.ns.is_some_and(|n| {
+                let comps: Vec<&str> = p.namespaces[n].split("::").collect();
+                (1..=comps.len()).any(|k| { let pre = comps[..k].join("::"); am::set_matches(&c.block.items, &pre) || d.items.iter().any(|it| it.kind == "module" && it.name == pre && it.blocklisted) })
+            });
+            by_name || by_ns
+        };
+        let kind_on = |i: usize| match p.decls[i].kind { DKind::Function => cfg & 1 != 0, DKind::Var => cfg & 4 != 0, _ => cfg & 2 != 0 };
+        // closure that does not pass through a namespace-hidden declaration (nothing of a hidden module is traced)
+        let mut need: BTreeSet<usize> = BTreeSet::new();
+        // roots of this oracle: declarations whose own path matches a pattern of their kind (the set `roots` above also holds the
+        // enclosing record of a matching member, which is an over-approximation that suits the minimality oracle only)
+        let own_match = |i: usize| -> bool {
+            let dd = &p.decls[i];
+            let path = p.path(i);
+            match dd.kind {
+                DKind::Function => am::set_matches(&c.allow.functions, &path) || am::set_matches(&c.allow.items, &path),
+                DKind::Var => am::set_matches(&c.allow.vars, &path) || am::set_matches(&c.allow.items, &path),
+                DKind::UnnamedEnum => p.variant_paths(i).iter().any(|v| am::set_matches(&c.allow.vars, v) || am::set_matches(&c.allow.items, v)),
+                _ => am::set_matches(&c.allow.types, &path) || am::set_matches(&c.allow.items, &path),
+            }
+        };
+        let mut stack: Vec<usize> = (0..p.decls.len()).filter(|&r| kind_on(r) && own_match(r) && roots.contains(&r)).collect();
+        while let Some(x) = stack.pop() {
+            if !need.insert(x) { continue; }
+            for &y in &p.decls[x].deps { stack.push(y); }
+        }
+        for &i in &need {
+            if decl_blocked(i) || !kind_on(i) || defined.contains(&i) { continue; }
+            // a template is generated through its instantiations' definition; an unnamed enum by its variants: both resolve by name above
+            fails.push(Failure {
+                kind: "oracle-needs",
+                detail: format!("declaration {} ({}) is needed by the allow-listed roots {:?} (generator's dependency relation) and matches no blocklist, but nothing is generated for it",
+                    p.path(i), p.decls[i].kind.name(), (0..p.decls.len()).filter(|&r| kind_on(r) && own_match(r) && roots.contains(&r)).map(|r| p.path(r)).collect::<Vec<_>>()),
+                input: case_json(c),
+            });
+            return;
+        }
+    }
     // ---- consistency with the full run (recursive mode)
     if c.recursive {
         match inventory::parse(full_bindings) {
